@@ -97,7 +97,10 @@ func (e Expression) MarshalYAML() (interface{}, error) {
 			// ExpressionFromString. Strings that would be read back as a
 			// point, a feature ID or a list of values are written in the
 			// explicit form below instead.
-			if _, ok := ExpressionFromString(string(e)).AnyExpression.(StringExpression); ok {
+			// (null and ~ are also written explicitly: YAML reads those
+			// scalars as null, even when quoted, before UnmarshalYAML is
+			// reached.)
+			if _, ok := ExpressionFromString(string(e)).AnyExpression.(StringExpression); ok && e != "null" && e != "~" {
 				return string(e), nil
 			}
 		case Expressions:
@@ -144,7 +147,13 @@ func (e *Expression) UnmarshalYAML(unmarshal func(interface{}) error) error {
 		e.AnyExpression = ExpressionFromString(v).AnyExpression
 		return nil
 	}
-	choice, err := unmarshalChoiceYAML(&expressionChoices{}, unmarshal)
+	var choice interface{}
+	var err error
+	if s, ok := explicitStringYAML(v); ok {
+		choice = StringExpression(s)
+	} else {
+		choice, err = unmarshalChoiceYAML(&expressionChoices{}, unmarshal)
+	}
 	if err == nil {
 		e.AnyExpression = choice.(AnyExpression)
 	}
@@ -155,6 +164,18 @@ func (e *Expression) UnmarshalYAML(unmarshal func(interface{}) error) error {
 		e.End = y.End
 	}
 	return err
+}
+
+// explicitStringYAML returns the string of the explicit form {string: s}.
+// Decoding that form via expressionChoices fails for the strings null and ~,
+// which YAML treats as null whenever the target isn't an interface{}.
+func explicitStringYAML(v interface{}) (string, bool) {
+	if m, ok := v.(map[interface{}]interface{}); ok {
+		if s, ok := m["string"].(string); ok {
+			return s, true
+		}
+	}
+	return "", false
 }
 
 func (e Expression) ToProto() (*pb.NodeProto, error) {
